@@ -748,7 +748,7 @@ impl World {
                 .iter()
                 .filter(|(op, c)| {
                     (c.output.lock().code_hash() == self.code_hash || c.output.lock().code_hash() == self.wcode_hash)
-                        && c.output.type_().is_none()
+                        && c.output.type_().to_opt().map(|t| t.code_hash() == self.code_hash).unwrap_or(true)
                         && !(op.tx_hash() == self.blocks[0].view.transactions()[0].hash())
                         && c.capacity() >= 200 * SHANNONS
                 })
@@ -788,7 +788,14 @@ impl World {
                     self.lock(&args[..rng.urange(0, 2)])
                 };
                 let data_len = if rng.chance(1, 4) { rng.urange(1, 9) } else { 0 };
-                let o0 = CellOutput::new_builder().lock(lock).build();
+                // some cells carry a type script (always_success with varying args): it runs for
+                // inputs and outputs, counts towards the occupied size and enters the block filter
+                let type_ = if rng.chance(1, 5) {
+                    Some(Script::new_builder().code_hash(self.code_hash.clone()).hash_type(ScriptHashType::Data).args(Bytes::from(vec![0x7e, rng.below(6) as u8])).build())
+                } else {
+                    None
+                };
+                let o0 = CellOutput::new_builder().lock(lock).type_(type_.pack()).build();
                 let min = occupied(&o0, data_len);
                 let cap = if j + 1 == m {
                     left
